@@ -13,6 +13,7 @@ import Model.Prefilter
 import Model.MongoMig
 import Model.Conc
 import Model.StorageCodec
+import Model.MongoRegex
 /-!
 # `vaktdrv`: one case per line in, one result per line out
 -/
@@ -73,6 +74,45 @@ def rowOfVal : PyVal → Option SqlRow
     let r ← rows "resources"
     let a ← rows "actions"
     pure { uid := uid, typ := typ, description := desc, effect := eff, context := ctx, subjects := s, resources := r, actions := a }
+  | _ => Option.none
+
+
+/-! ## the server-side regex search used by the MongoDB >= 4.2 prefilter, built from the stored elements -/
+inductive RxKind where
+  | anchored (r : Vakt.Re)      -- a compiled text `^…$`: the segments' regular expressions between escaped literals
+  | plain (r : Vakt.Re)         -- a literal element used as a regular expression as it is
+  | invalid
+  | unmodelled
+
+def searchAny (r : Vakt.Re) (w : List Char) : Bool :=
+  (List.range (w.length + 1)).any (fun i => r.matchesPrefix (w.drop i))
+
+open Vakt.StorageCodec in
+def rxOfElem (p : Policy) : Elem → Option (List Char × RxKind)
+  | .str s =>
+    if hasTags p s then
+      (match Vakt.TagParser.scan p.stag p.etag s with
+       | Option.none => Option.none
+       | some ps =>
+         match Vakt.piecesRe ps with
+         | .ok r _ => some ('^' :: patternOfPieces ps ++ ['$'], .anchored r)
+         | .invalid => Option.none
+         | .unsupported => some ([], .unmodelled))
+    else if !CharTable.allKnown s then some (s, .unmodelled)
+    else
+      (match Vakt.parsePattern s with
+       | .ok r _ => some (s, .plain r)
+       | .invalid => some (s, .invalid)
+       | .unsupported => some (s, .unmodelled))
+  | _ => Option.none
+
+def rxTable (ps : List Policy) : List (List Char × RxKind) :=
+  ps.flatMap (fun p => (p.actions ++ p.subjects ++ p.resources).filterMap (rxOfElem p))
+
+def mkSearch (tbl : List (List Char × RxKind)) : Vakt.MongoRegex.Search := fun rx v =>
+  match tbl.find? (fun kv => kv.1 == rx) with
+  | some (_, .anchored r) => some (r.acceptsDollar v)
+  | some (_, .plain r) => some (searchAny r v)
   | _ => Option.none
 
 def pStoreAns : P StoreAns
@@ -404,6 +444,17 @@ def handle (toks : List String) : Option String :=
          pure ("ok uid=" ++ showVal r.uid ++ " effect=" ++ showVal r.effect ++ " type=" ++
            toString Vakt.Generated.typeStringBased ++ " ctx=" ++ ",".intercalate ks ++ " desc=" ++ showVal r.description))
     | _ => none
+  | "MFIND" :: ts => do
+    let (a, ts) ← pStr ts
+    let (su, ts) ← pStr ts
+    let (r, ts) ← pStr ts
+    let ps ← full (pCounted pPolicy ts)
+    let tbl := rxTable ps
+    if tbl.any (fun kv => match kv.2 with | .unmodelled => true | _ => false) then pure "unmodelled" else
+    if !(CharTable.allKnown a && CharTable.allKnown su && CharTable.allKnown r) then pure "unmodelled" else
+    match Vakt.MongoRegex.find (mkSearch tbl) Vakt.StorageCodec.modelCompile a su r ps with
+    | some cs => pure ("ok " ++ showUids cs)
+    | Option.none => pure "fails"
   | "CAND" :: bk :: ts => do
     let b ← (match bk with
       | "all" => some Vakt.Prefilter.Backend.all | "type" => some Vakt.Prefilter.Backend.typeOnly
